@@ -58,6 +58,7 @@ def run():
     ck.cov['distinct_nontrivial'] = len(set(lines)) + r['distinct']
     ck.cov['rule'] = ('model: all (start,count) pairs of 2 threads for N items; code: counts 0..13 and larger x start alignment 0..3 x bases {0, middle, end of dataset}, '
                       'seeded random requests, both cache flavours (interpreted / compiled initialiser), multi-thread random partitions incl. ranges shorter than 4 and the last items')
+    ck.cov['rule'] += '; plus: re-keyed cache object sequences (prefix / extension / same first 60 bytes / NUL / empty), one call over more than 2^25 items with a one-instruction-program cache, TLAPS lemmas for every start and count'
     ck.sample(lines[5])
     ck.sample(([l for l in lines if l.startswith('{"e":"multi"')] or [''])[0])
     ck.assumptions += ['light-mode item function (initDatasetItem) is the reference for item values here; its agreement with specs.md 7.3 is checked on sampled items by TLC (shared with C09)']
